@@ -16,7 +16,7 @@ from .core import (ANALYZER_BIN, ANALYZER_TARGET, CACHE, CLI_TARGET, DRIVER_BIN,
                    BuildFailed, Lock, log, run, tree_hash)
 
 TREES = os.path.join(CACHE, "trees")
-KEEP_TREES = 5
+KEEP_TREES = 10
 
 
 class Artifacts:
